@@ -1165,7 +1165,12 @@ class Process(StateMachine, persistence.Savable, metaclass=ProcessStateMachineMe
         """Carry out the pause procedure, optionally transitioning to the next state first"""
         try:
             if next_state is not None:
+                pending = self._pausing
                 self.transition_to(next_state)
+                if pending is not None and self._pausing is not pending:
+                    # ``play`` was called while the transition was under way (by a listener or a hook): the pause
+                    # was withdrawn before it took effect
+                    return False
 
             if state_msg is None:
                 msg_text = ''
